@@ -1,7 +1,10 @@
 """C18, clause "inside a work item": dispatch_get_specific / current queue / dispatch_assert_queue[_not] over generated queue
 hierarchies and every submission path.  Model: coq/Model/Frames.v (hand-written).  Harness: harness/c18_frames.c (one scenario per
 process; public API for every action, white-box reads of the frame stack / dq_state for observation; dispatch_assert_queue* in
-forked children).  Called from props/c18.py: correspond_frames(ctx) returns the same dict shape as correspond()."""
+forked children).  Called from props/c18.py: correspond_frames(ctx) returns the same dict shape as correspond().
+Per probe (one executed item iteration) Coq evaluates Frames.probe_check: 8 "tie" flags (model on the OBSERVED stack = library;
+observed stack = frames_of_path) -> `mismatches`, and 5 "judge" flags (library vs the chain-level statement of the property) ->
+`failures` with the scenario text as replayable input."""
 import concurrent.futures
 import os
 
